@@ -317,6 +317,7 @@ func (h *c26Harness) startWaiter(jh *c26JobH) {
 		jh.waitErr = err
 		h.log.rec("waitret", jh.idx, 0, errText(err))
 		jh.waitDone.Store(true)
+		h.log.progress.Add(1) // last action: tells the controller to look again now that the flag is set
 	})
 }
 
@@ -326,6 +327,7 @@ func (h *c26Harness) doneCall(jh *c26JobH) {
 		jh.job.Done(func() {
 			h.log.rec("cb", jh.idx, 0, "")
 			jh.cbDone.Store(true)
+			h.log.progress.Add(1)
 		})
 	} else {
 		jh.job.Done(nil)
@@ -406,6 +408,7 @@ func c26Run(c *c26Case, st *vstat.Stats) error {
 					jh.waitErr = err
 					h.log.rec("waitret", jh.idx, 0, errText(err))
 					jh.waitDone.Store(true)
+					h.log.progress.Add(1)
 				})
 				hgo(func() {
 					for t := range jh.spec.Tasks {
@@ -511,7 +514,8 @@ func c26Run(c *c26Case, st *vstat.Stats) error {
 		hgo(func() {
 			job, err := h.pool.NewJob(backlog)
 			h.log.rec("newret", jh.idx, 0, errText(err))
-			ch <- newRes{job, err}
+			ch <- newRes{job, err} // buffered
+			h.log.progress.Add(1)  // last action: tells the controller to look again
 		})
 		t0 := time.Now()
 		for time.Since(t0) < 3*time.Millisecond {
@@ -584,6 +588,7 @@ func c26Run(c *c26Case, st *vstat.Stats) error {
 			h.pool.Stop()
 			h.log.rec("stopret", -1, 0, "")
 			stopReturned.Store(true)
+			h.log.progress.Add(1)
 		})
 		t0 := time.Now()
 		for time.Since(t0) < 150*time.Millisecond {
@@ -714,20 +719,28 @@ func c26Run(c *c26Case, st *vstat.Stats) error {
 				break
 			}
 		}
-		// nothing is left for the harness to do; these calls have not returned yet:
-		what := c26Pending(h, false)
-		if newPending != nil {
-			what = strings.TrimPrefix(what+fmt.Sprintf("; NewJob for job %d never returned", newPendingJH.idx), "; ")
-		}
-		if stopInvoked && !stopReturned.Load() {
-			if what == "" {
-				what = "Stop never returned although every job has completed"
-			} else {
-				what += "; Stop has not returned"
+		// Nothing is left for the harness to do. pendingWhat is evaluated afresh every
+		// time it is needed: a helper goroutine may deliver its result (NewJob's
+		// return value in the channel, a waitDone / cbDone / stopReturned flag) at any
+		// moment, and such a delivery must end the wait, never count as a hang.
+		pendingWhat := func() string {
+			what := c26Pending(h, false)
+			if newPending != nil && len(newPending) == 0 {
+				what = strings.TrimPrefix(what+fmt.Sprintf("; NewJob for job %d never returned", newPendingJH.idx), "; ")
 			}
+			if stopInvoked && !stopReturned.Load() {
+				if what == "" {
+					what = "Stop never returned although every job has completed"
+				} else {
+					what += "; Stop has not returned"
+				}
+			}
+			return what
 		}
-		idle := func() bool { return what != "" && len(h.parked()) == 0 && h.running() == 0 }
-		out, sig := awaitOrHang(&h.log.progress, p0, func() bool { return h.dup.Load() != 0 }, idle, markers, deadline)
+		what := pendingWhat()
+		changed := func() bool { return h.dup.Load() != 0 || pendingWhat() != what }
+		idle := func() bool { return what != "" && pendingWhat() == what && len(h.parked()) == 0 && h.running() == 0 }
+		out, sig := awaitOrHang(&h.log.progress, p0, changed, idle, markers, deadline)
 		if out == woHung {
 			return fail("deadlock: %s; every pool goroutine is blocked [%s]", what, shortSig(sig))
 		}
